@@ -19,6 +19,7 @@ import (
 func (e *Env) RAddSurvives() {
 	pkg := e.Prog.Pkg(load.PkgDecorator)
 	info := pkg.TypesInfo
+	c := e.Sib.Ctx[load.PkgDecorator]
 	fd := load.FuncDecl(pkg, "FileRestorer", "updateImports")
 	key := "updateImports: a declaration that receives a new spec is not marked for deletion"
 	if fd == nil || fd.Body == nil {
@@ -78,11 +79,23 @@ func (e *Env) RAddSurvives() {
 		e.Run.OK("R-ADD", key, e.Prog.Pos(fd.Pos()), "no declaration is ever marked for deletion")
 		return
 	}
-	e.Run.Floor("R-ADD", "appends of a new import spec to a declaration", len(adds), 1)
+	e.Run.Analysed("R-ADD appends of a new import spec to a declaration", len(adds))
 	for _, a := range adds {
 		var after []string
+		target := ""
+		if as, ok := a.pos.(*ast.AssignStmt); ok {
+			for _, l := range as.Lhs {
+				if se, ok := ast.Unparen(l).(*ast.SelectorExpr); ok && se.Sel.Name == "Specs" {
+					target = types.ExprString(se.X)
+				}
+			}
+		}
 		for _, m := range marks {
 			if m.top < a.top || (m.top == a.top && m.pos.Pos() < a.pos.Pos()) {
+				// a mark that leaves out the receiving declaration (`block != blocks[0]`) does not count
+				if pc, okp := pathCond(c, fd.Body.List, m.pos); okp && target != "" && (strings.Contains(pc, " != "+target) || strings.Contains(pc, target+" != ")) {
+					continue
+				}
 				after = append(after, e.Prog.Pos(m.pos.Pos()))
 			}
 		}
@@ -99,4 +112,173 @@ func (e *Env) RAddSurvives() {
 		e.Run.Check("R-ADD", key, e.Prog.Pos(a.pos.Pos()), taken,
 			"the spec is appended after the declaration may have been marked for deletion ("+strings.Join(after, ", ")+") and the mark is never taken back: when every old spec of that declaration was removed, the declaration is dropped together with the import that was just added — the code refers to a package the file does not import")
 	}
+}
+
+// RDeclRemoval (R-ADD): an import declaration is removed from the file exactly when it has no
+// spec left. (1) Every statement that marks a declaration for deletion runs only where the list
+// of specs that were kept is empty (a conjunct `len(<kept>) == 0` of its path condition);
+// (2) the final pass over File.Decls keeps exactly the unmarked declarations: the append into the
+// new list is reached under the negation of the mark test, nothing else. Also (3): the
+// conflict-free name search changes the candidate in every round (a loop on conflict(current)
+// that does not assign current never ends), and (4) a new spec is given a Name exactly when an
+// alias was chosen for its path.
+func (e *Env) RDeclRemoval() {
+	pkg := e.Prog.Pkg(load.PkgDecorator)
+	info := pkg.TypesInfo
+	c := e.Sib.Ctx[load.PkgDecorator]
+	fd := load.FuncDecl(pkg, "FileRestorer", "updateImports")
+	if fd == nil || fd.Body == nil {
+		return
+	}
+	undo := c.InstallReaching(fd)
+	defer undo()
+	isMarkMap := func(x ast.Expr) bool {
+		m, ok := info.TypeOf(x).Underlying().(*types.Map)
+		if !ok {
+			return false
+		}
+		_, n := namedOf(m.Key())
+		b, isB := m.Elem().Underlying().(*types.Basic)
+		return (n == "GenDecl" || n == "Decl") && isB && b.Kind() == types.Bool
+	}
+	nMarks, nKeep, nLoops, nNames := 0, 0, 0, 0
+	ast.Inspect(fd.Body, func(nd ast.Node) bool {
+		switch v := nd.(type) {
+		case *ast.AssignStmt:
+			for k, l := range v.Lhs {
+				ix, ok := ast.Unparen(l).(*ast.IndexExpr)
+				if !ok || !isMarkMap(ix.X) || k >= len(v.Rhs) {
+					continue
+				}
+				if tv, ok := info.Types[v.Rhs[k]]; !ok || tv.Value == nil || tv.Value.String() != "true" {
+					continue
+				}
+				nMarks++
+				pc, okp := pathCond(c, fd.Body.List, v)
+				empty := false
+				for _, cj := range flatConjuncts(orTrue(pc)) {
+					cj = strings.TrimSpace(cj)
+					if m := strings.TrimSuffix(cj, " == 0"); m != cj && (strings.HasPrefix(m, "len(") || m == "count") {
+						empty = true
+					}
+					if m := strings.TrimPrefix(cj, "0 == "); m != cj && strings.HasPrefix(m, "len(") {
+						empty = true
+					}
+				}
+				e.Run.Check("R-ADD", "updateImports: a declaration is marked for deletion only when no spec of it is kept", e.Prog.Pos(v.Pos()), okp && empty,
+					"the mark is set under «"+pc+"», which does not say that the list of kept specs is empty: a declaration that still has imports is removed from the file (the code refers to packages the file no longer imports)")
+			}
+			// (4) is.Name = &dst.Ident{Name: aliases[path]}
+			for k, l := range v.Lhs {
+				se, ok := ast.Unparen(l).(*ast.SelectorExpr)
+				if !ok || se.Sel.Name != "Name" || k >= len(v.Rhs) {
+					continue
+				}
+				if _, tn := namedOf(info.TypeOf(se.X)); tn != "ImportSpec" {
+					continue
+				}
+				al := ""
+				ast.Inspect(v.Rhs[k], func(m ast.Node) bool {
+					if ix, ok := m.(*ast.IndexExpr); ok && types.ExprString(ix.X) == "aliases" {
+						al = c.ExprStr(ix)
+					}
+					return true
+				})
+				if al == "" {
+					continue
+				}
+				pc, okp := pathCond(c, fd.Body.List, v)
+				// inside the additions loop: the conjuncts that speak about the alias
+				has, bad := false, false
+				for _, cj := range flatConjuncts(orTrue(pc)) {
+					cj = strings.TrimSpace(cj)
+					if cj == al+` != ""` {
+						has = true
+					}
+					if cj == "false" || cj == al+` == ""` {
+						bad = true
+					}
+				}
+				{
+					nNames++
+					e.Run.Check("R-ALIAS", "updateImports: a new import spec is given a name exactly when an alias was chosen for its path", e.Prog.Pos(v.Pos()), okp && has && !bad,
+						"the name is stored under «"+pc+"» (specified: `"+al+` != ""`+"`): an import that needs an alias (its package name clashes with another import's) is written without one while the code uses the alias, or every new import is written with an empty name")
+				}
+			}
+		case *ast.ForStmt:
+			// (3) for conflict(current) { … }
+			call, ok := ast.Unparen(v.Cond).(*ast.CallExpr)
+			if v.Cond == nil || !ok || len(call.Args) != 1 {
+				return true
+			}
+			arg, ok := ast.Unparen(call.Args[0]).(*ast.Ident)
+			if !ok {
+				return true
+			}
+			if t, ok := info.TypeOf(call).(*types.Basic); !ok || t.Kind() != types.Bool {
+				return true
+			}
+			nLoops++
+			assigned := false
+			ast.Inspect(v.Body, func(m ast.Node) bool {
+				if as, ok := m.(*ast.AssignStmt); ok {
+					for _, l := range as.Lhs {
+						if id, ok := l.(*ast.Ident); ok && info.Uses[id] == info.Uses[arg] {
+							assigned = true
+						}
+					}
+				}
+				return true
+			})
+			e.Run.Check("R-UNIQ", "updateImports: the search for a conflict-free name tries another name in every round", e.Prog.Pos(v.Pos()), assigned,
+				"the loop runs while "+types.ExprString(v.Cond)+" and never assigns "+arg.Name+": two imports with the same package name make the restorer loop for ever")
+		case *ast.RangeStmt:
+			// (2) the final pass: range over r.file.Decls with an append of the element
+			if !strings.HasSuffix(types.ExprString(v.X), ".Decls") || v.Value == nil {
+				return true
+			}
+			val, ok := v.Value.(*ast.Ident)
+			if !ok {
+				return true
+			}
+			ast.Inspect(v.Body, func(m ast.Node) bool {
+				as, ok := m.(*ast.AssignStmt)
+				if !ok || len(as.Rhs) != 1 {
+					return true
+				}
+				call, ok := ast.Unparen(as.Rhs[0]).(*ast.CallExpr)
+				if !ok || len(call.Args) != 2 {
+					return true
+				}
+				if id, ok := call.Fun.(*ast.Ident); !ok || id.Name != "append" {
+					return true
+				}
+				if a, ok := ast.Unparen(call.Args[1]).(*ast.Ident); !ok || a.Name != val.Name {
+					return true
+				}
+				// is there a mark test in this loop at all?
+				marked := ""
+				ast.Inspect(v.Body, func(x ast.Node) bool {
+					if ix, ok := x.(*ast.IndexExpr); ok && isMarkMap(ix.X) {
+						marked = types.ExprString(ix)
+					}
+					return true
+				})
+				if marked == "" {
+					return true
+				}
+				nKeep++
+				pc, okp := pathCond(c, v.Body.List, as)
+				eq, dec := equivalentGuards(orTrue(pc), "!"+marked)
+				e.Run.Check("R-ADD", "updateImports: the final pass keeps exactly the declarations that are not marked for deletion", e.Prog.Pos(as.Pos()), okp && dec && eq,
+					"a declaration is kept under «"+pc+"», specified `!"+marked+"`: with the test the other way round every declaration of the file except the empty import declarations is dropped")
+				return true
+			})
+		}
+		return true
+	})
+	e.Run.Analysed("R-ADD deletion marks", nMarks)
+	e.Run.Analysed("R-ADD final-pass keeps", nKeep)
+	e.Run.Analysed("R-UNIQ conflict loops", nLoops)
+	e.Run.Analysed("R-ALIAS new spec names", nNames)
 }
